@@ -24,11 +24,20 @@ def bounds(tier):
         return {"ff/bf": "all sequences of 1..5 items over 0..6, B=6; multisets of 1..6 over 0..10 in 6 fixed orders, B=10",
                 "ffd/bfd/bc": "all multisets of 1..7 items over 0..6 (B=6), 1..6 items over 0..10 (B=10), 1..8 items over 1..10 (B=20: bins of three and more items)",
                 "dyadic": "all sequences of 1..4 items over {0,1/8,..,1}, B=1, ff/ffd/bf/bfd",
-                "output types": "all 10 on multisets of 1..4 items over 0..6, B=6"}
+                "output types": "all 10 on multisets of 1..4 items over 0..6, B=6",
+                "big": "B=2**32, letters {1, 2**31-1, 2**31, 2**31+1, 2**32-1, 2**32}: all sequences of 1..4 (ff/bf), multisets of 1..5 (ffd/bfd/bc); the same letters divided by 2**32 with B=1 (fit heuristics)",
+                "long-thin": "multisets of 9..15 items over {1,2} (B=5), {1,2,3} (B=7), {2,3,5} (B=10), {0,1,4} (B=4): ff/bf in 6 fixed orders, ffd/bfd/bc"}
     return {"ff/bf": "all sequences of 1..6 items over 0..6, B=6; all sequences of 1..5 over 0..10 step... (0,1,2,3,4,5,7,10), B=10",
             "ffd/bfd/bc": "all multisets of 1..8 items over 0..6 (B=6), 1..7 over 0..10 (B=10), 1..6 over 0..12 (B=12), 1..6 over {0,1,3,5,7,10,13,20} (B=20), 1..9 over 1..10 (B=20)",
             "dyadic": "all sequences of 1..5 items over {0,1/8,..,1}, B=1",
-            "output types": "all 10 on multisets of 1..5 items over 0..6, B=6"}
+            "output types": "all 10 on multisets of 1..5 items over 0..6, B=6",
+            "big": "B=2**32, letters {1, 2**31-1, 2**31, 2**31+1, 2**32-1, 2**32}: all sequences of 1..5 (ff/bf), multisets of 1..6 (ffd/bfd/bc); the same letters divided by 2**32 with B=1 (fit heuristics)",
+            "long-thin": "multisets of 9..24 items over {1,2} (B=5), 9..16 over {1,2,3} (B=7), 9..14 over {2,3,5} (B=10), 9..14 over {0,1,4} (B=4): ff/bf in 6 fixed orders, ffd/bfd/bc"}
+
+
+BIG_B = 2 ** 32
+BIG_LETTERS = (1, 2 ** 31 - 1, 2 ** 31, 2 ** 31 + 1, 2 ** 32 - 1, 2 ** 32)
+LONG_THIN = [((1, 2), 9, 24, 5), ((1, 2, 3), 9, 16, 7), ((2, 3, 5), 9, 14, 10), ((0, 1, 4), 9, 14, 4)]
 
 
 def tasks(tier):
@@ -54,6 +63,22 @@ def tasks(tier):
         ts.append(("dyadic", ch, 1))
     for ch in scopes.chunk_multisets(range(0, 7), 1, 4 if q else 5, 60):
         ts.append(("outs", ch, 6))
+    # magnitudes at which a relative tolerance, a float32 or an int32 would bite: near-miss sums around a 2**32 bin,
+    # and the same pattern scaled down to fractions with a 2**-32 grain (all exactly representable, all sums exact)
+    for ch in spaces.chunked(spaces.sequences(BIG_LETTERS, 1, 4 if q else 5), 400):
+        ts.append(("big-fit", ch, BIG_B))
+    for ch in scopes.chunk_multisets(BIG_LETTERS, 1, 5 if q else 6, 200):
+        ts.append(("ms-dec", ch, BIG_B))
+        ts.append(("ms-bc", ch, BIG_B))
+    fine = [Fraction(v, BIG_B) for v in BIG_LETTERS]
+    for ch in spaces.chunked(spaces.sequences(fine, 1, 4 if q else 5), 400):
+        ts.append(("dyadic", ch, 1))
+    # many items over tiny alphabets: bins of many items, long scans over many open bins
+    for alpha, lo, hi, B in LONG_THIN:
+        for ch in scopes.chunk_multisets(alpha, lo, hi if not q else min(hi, lo + 6), 60):
+            ts.append(("long-orders", ch, B))
+            ts.append(("ms-dec", ch, B))
+            ts.append(("ms-bc", ch, B))
     return ts
 
 
@@ -94,11 +119,11 @@ def run_task(task):
     for it in chunk:
         items = [float(v) for v in it] if scope == "dyadic" else list(it)
         acc.point(nontrivial=(sum(items) > B))
-        if scope in ("seq-fit", "dyadic"):
-            algos = ("ff", "bf") if scope == "seq-fit" else ("ff", "bf", "ffd", "bfd")
+        if scope in ("seq-fit", "dyadic", "big-fit"):
+            algos = ("ff", "bf") if scope != "dyadic" else ("ff", "bf", "ffd", "bfd")
             for a in algos:
                 _one(acc, {"algo": a, "items": items, "B": B}, False)
-        elif scope == "orders-fit":
+        elif scope in ("orders-fit", "long-orders"):
             first = True
             for order in spaces.fixed_orders(it):
                 if not first: acc.point(nontrivial=(sum(items) > B))
